@@ -162,8 +162,9 @@ pub fn build_workload_full(
         if tapes.query.draw(2) == 1 {
             cfg.bias_optional = true;
             cfg.f_optional = true;
-            cfg.max_vertices = cfg.max_vertices.max(4);
-            cfg.max_depth = cfg.max_depth.max(2);
+            cfg.max_vertices = cfg.max_vertices.max(5);
+            cfg.max_depth = cfg.max_depth.max(3);
+            cfg.f_fold = true;
         }
     }
     if adversarial_args || tapes.query.draw(4) == 0 {
